@@ -1,7 +1,8 @@
 """C16  Analysis attach/detach leaves the IR unchanged.
 
 ENUM.  Bounds: quick = all routines with <= 3 items over the full alphabet + <= 4 items over
-{P,S,E,A,K | L | D,P} x 77 modes; thorough = <= 3 items full alphabet and <= 4 items over {P,S,E,A,K | L | D,P}
+{P,S,E,A,K | L | D,P} x 77 modes, + <= 3 items over {P,A,M,N,I | L | P} where M/N = SELECT CASE with its first/middle
+branch emptied by a Transformer before attaching and I = IF with an emptied body; thorough = <= 3 items full alphabet and <= 4 items over {P,S,E,A,K | L | D,P}
 x 200 modes (all 15 node-type subsets) + all <= 4-item routines over the full alphabet x 77 modes.
 Every routine whose spec + body is a forest of at most L items over a fixed statement
 alphabet (generic pragma, region start, matching region end, region end with a different keyword,
@@ -56,7 +57,13 @@ LEAVES = {
     'A': 'x(1) = x(1) + 1.',
     'C': '! note',
     'K': 'call sub(x, n)',
+    # branches emptied *programmatically* before attaching (the marker statement `k = 777` is removed with a
+    # Transformer after parsing: the parser itself never yields an empty non-last CASE / IF body)
+    'M': 'select case (n)\ncase (1)\n  k = 777\ncase (2)\n  x(1) = 2.\ncase default\n  x(1) = 3.\nend select',
+    'N': 'select case (n)\ncase (1)\n  x(1) = 1.\ncase (2)\n  k = 777\ncase default\n  x(1) = 3.\nend select',
+    'I': 'if (n > 0) then\n  k = 777\nelse\n  x(1) = 0.\nend if',
 }
+MARKER = '777'
 SPEC_LEAVES = {
     'P': '!$loki foo',
     'S': '!$loki data',
@@ -115,7 +122,7 @@ def render(prog):
         ind = '  ' * (depth + 1)
         for it in forest:
             if isinstance(it, str):
-                lines.append(ind + LEAVES[it])
+                lines.extend(ind + ln for ln in LEAVES[it].split('\n'))
             else:
                 c, inner = it
                 if c == 'L':
@@ -323,6 +330,17 @@ class Refused(Exception):
     pass
 
 
+def prepare(r, prog_text):
+    """Remove the marker statements (emptying the CASE / IF branch that holds them) before anything is attached."""
+    if not any(c in prog_text for c in 'MNI'):
+        return
+    from loki.ir import FindNodes, Transformer
+    ir = L()['ir']
+    marks = [a for a in FindNodes(ir.Assignment).visit(r.body) if str(a.rhs) == MARKER]
+    if marks:
+        r.body = Transformer({a: None for a in marks}).visit(r.body)
+
+
 def run_mode(r, mode, probe):
     """Execute one mode on routine r.  probe() is called at the point of deepest attachment and
     returns a structure hash (used to tell whether the attach did anything)."""
@@ -437,6 +455,7 @@ def check_one(prog, mode, r=None, before=None, force_text=True):
     verdict = ('ok', changed_while_attached) | ('refused', msg) | ('bad', kinds, detail)"""
     if r is None:
         r = L()['Subroutine'].from_source(render(prog))
+        prepare(r, show(prog))
         before = Snap(r, True)
 
     def probe():
@@ -502,6 +521,8 @@ def shrink_case(prog, mode, kinds):
                 trial.append((api, ms[:i] + (m2,) + ms[i + 1:], raising))
             if m[2]:
                 trial.append((api, ms[:i] + (('P', m[1], False),) + ms[i + 1:], raising))
+        if m[0] == 'R' and m[1] is not None:
+            trial.append((api, ms[:i] + (('R', None),) + ms[i + 1:], raising))
     for t in trial:
         if fails(prog, t):
             return shrink_case(prog, t, kinds)
@@ -575,13 +596,14 @@ def work(item):
 
 # alphabets: (max items, body leaves, containers, spec leaves)
 SMALL_FULL = dict(maxsize=3, body=BODY_ORDER, cont=CONTAINERS, spec=SPEC_ORDER)
+COND = dict(maxsize=3, body=['P', 'A', 'M', 'N', 'I'], cont=['L'], spec=['P'])
 WIDE_L = dict(maxsize=4, body=['P', 'S', 'E', 'A', 'K'], cont=['L'], spec=['D', 'P'])
 WIDE_LW = dict(maxsize=4, body=['P', 'S', 'E', 'A', 'K'], cont=CONTAINERS, spec=['D', 'P'])
 FULL4 = dict(maxsize=4, body=BODY_ORDER, cont=CONTAINERS, spec=SPEC_ORDER)
 DEEP5 = dict(maxsize=5, body=['P', 'S', 'E', 'K'], cont=['L'], spec=['P'])
 # (alphabet, full mode set?)  -- quick is a subset of thorough, program- and mode-wise
-QUICK_PARTS = [(SMALL_FULL, False), (WIDE_L, False)]
-THOROUGH_PARTS = [(SMALL_FULL, True), (WIDE_L, True), (WIDE_LW, False), (FULL4, False)]
+QUICK_PARTS = [(SMALL_FULL, False), (COND, False), (WIDE_L, False)]
+THOROUGH_PARTS = [(SMALL_FULL, True), (COND, True), (WIDE_L, True), (WIDE_LW, False), (FULL4, False)]
 
 
 def space(b):
